@@ -598,29 +598,36 @@ func c44Exec(t *testing.T, p c44Params, hist []string, withCont bool) (res c42Re
 }
 
 func c44Scenarios() []c44Params {
-	n, win := 3, 1
-	f := vsched.Pick(1, 2)
-	tk := vsched.Pick(1, 2)
-	stops, joins := 1, 1
-	if s := os.Getenv("VERIF_C44_CFG"); s != "" { // development aid
-		fmt.Sscanf(s, "%d,%d,%d,%d,%d,%d", &n, &win, &f, &tk, &stops, &joins)
-	}
 	r := vsched.Rep()
 	sh, nsh := r.Shard, r.NShards
 	if r.ReplayScenario() != "" {
 		sh, nsh = 0, 1
 	}
-	return []c44Params{{name: fmt.Sprintf("workpull/N%d/W%d/F%d/T%d/stops%d/joins%d", n, win, f, tk, stops, joins), n: n, w: win, faults: f, ticks: tk, stops: stops, joins: joins, shard: sh, nshards: nsh}}
+	mk := func(n, win, f, tk, stops, joins int) c44Params {
+		return c44Params{name: fmt.Sprintf("workpull/N%d/W%d/F%d/T%d/stops%d/joins%d", n, win, f, tk, stops, joins), n: n, w: win, faults: f, ticks: tk, stops: stops, joins: joins, shard: sh, nshards: nsh}
+	}
+	if s := os.Getenv("VERIF_C44_CFG"); s != "" { // development aid
+		var n, win, f, tk, stops, joins int
+		fmt.Sscanf(s, "%d,%d,%d,%d,%d,%d", &n, &win, &f, &tk, &stops, &joins)
+		return []c44Params{mk(n, win, f, tk, stops, joins)}
+	}
+	if !r.Thorough() {
+		return []c44Params{mk(3, 1, 1, 0, 1, 1), mk(2, 1, 1, 1, 1, 1)}
+	}
+	// ascending cost
+	return []c44Params{mk(3, 1, 1, 1, 1, 1), mk(2, 1, 2, 0, 1, 1), mk(3, 2, 1, 1, 1, 1), mk(3, 1, 1, 1, 2, 2)}
 }
 
 func TestVerifC44(t *testing.T) {
 	defer vsched.Finish(t)
+	start := time.Now()
 	r := vsched.Rep()
 	r.Assumption("controller-to-controller traffic is intercepted by wrapping the controllers' mailboxes after the real spawn transaction; the endpoints are harness actors following the documented contract; volatile work queue; worker death reaches the producer controller through the local death watch (not a pool message)")
-	for _, p := range c44Scenarios() {
+	scs := c44Scenarios()
+	for i, p := range scs {
 		p := p
 		cp := c42Params{name: p.name, n: p.n, w: p.w, faults: p.faults, ticks: p.ticks}
-		c42Search(t, cp, map[string]any{"stop_budget": p.stops, "joins_per_worker": p.joins, "workers": 2}, 200, time.Time{}, func(h []string, cont bool) c42Result { return c44Exec(t, p, h, cont) },
+		c42Search(t, cp, map[string]any{"stop_budget": p.stops, "joins_per_worker": p.joins, "workers": 2}, 200, c42Deadline(start, i, len(scs)), func(h []string, cont bool) c42Result { return c44Exec(t, p, h, cont) },
 			func(v vsched.Violation) bool { return strings.HasPrefix(v.Signature, "C44:") })
 	}
 }
